@@ -740,12 +740,22 @@ func ruleOutRange(w *World, r *Report, fn string) {
 			continue
 		}
 		n++
+		okMin, okMax := validatedValue(w, f, ret.Results[0], 0), validatedValue(w, f, ret.Results[1], 0)
 		for i, nm := range []string{"minimum", "maximum"} {
 			key := fmt.Sprintf("%s / success return#%d / %s", fn, n, nm)
+			if okMin != okMax && ((i == 0 && !okMin) || (i == 1 && !okMax)) {
+				// the sibling bound is range-checked and this one is not: one-sided validation
+				r.add("OUTRANGE", key, w.Pos(ret.Pos()), Violated, "only the other end of the returned range is range-checked; the returned "+nm+" ("+describeValue(ret.Results[i])+") is compared with nothing: an index that does not exist can be returned without an error")
+				continue
+			}
 			if validatedValue(w, f, ret.Results[i], 0) {
 				r.add("OUTRANGE", key, w.Pos(ret.Pos()), Discharged, "returned "+nm+" is range-checked")
+			} else if hasRangeValidation(w, f, 0, map[*ssa.Function]bool{}) {
+				// some range validation with a failing side exists on the way, in a form that
+				// could not be tied to this value: no verdict
+				r.add("OUTRANGE", key, w.Pos(ret.Pos()), Undecided, "the returned "+nm+" ("+describeValue(ret.Results[i])+") could not be tied to the range validation found in the function")
 			} else {
-				r.add("OUTRANGE", key, w.Pos(ret.Pos()), Violated, "the returned "+nm+" ("+describeValue(ret.Results[i])+") is never compared with the bounds of the output zoom: an index that does not exist can be returned without an error")
+				r.add("OUTRANGE", key, w.Pos(ret.Pos()), Violated, "the returned "+nm+" ("+describeValue(ret.Results[i])+") is never compared with the bounds of the output zoom, and the function contains no range validation at all: an index that does not exist can be returned without an error")
 			}
 		}
 	}
@@ -1150,4 +1160,100 @@ func ruleTileCompose(w *World, r *Report) {
 	} else {
 		r.add("COMPOSE", fn+" / expansion loop", pos, Violated, "the result is not the concatenation of ConvertExtendedSpatialIDToSpatialIDs over every extended ID")
 	}
+}
+
+// hasRangeValidation: f (or a module callee, three levels deep) contains a
+// branch with a failing side whose condition involves a 2^zoom quantity
+// (CalculateArithmeticShift(1, z), 1 << z, math.Pow(2, z)) or an existence
+// validator built on one.
+func hasRangeValidation(w *World, f *ssa.Function, depth int, seen map[*ssa.Function]bool) bool {
+	if f == nil || f.Blocks == nil || seen[f] || depth > 3 {
+		return false
+	}
+	seen[f] = true
+	e := scFor(w)
+	pow := func(v ssa.Value) bool {
+		found := false
+		var walk func(x ssa.Value, d int)
+		walk = func(x ssa.Value, d int) {
+			x = resolve(x)
+			if d > 6 || found {
+				return
+			}
+			switch y := x.(type) {
+			case *ssa.Call:
+				if calleeIs(y, modPath+"/common", "CalculateArithmeticShift") {
+					if k, ok := constInt(y.Call.Args[0]); ok && k == 1 {
+						found = true
+						return
+					}
+				}
+				if calleeIs(y, "math", "Pow") || calleeIs(y, "math", "Ldexp") {
+					found = true
+					return
+				}
+				if g := calleeOf(y); g != nil && w.InModule(g) && hasRangeValidation(w, g, depth+1, seen) {
+					found = true
+					return
+				}
+				for _, a := range y.Call.Args {
+					walk(a, d+1)
+				}
+			case *ssa.BinOp:
+				if y.Op == token.SHL {
+					if k, ok := constInt(y.X); ok && k == 1 {
+						found = true
+						return
+					}
+				}
+				walk(y.X, d+1)
+				walk(y.Y, d+1)
+			case *ssa.UnOp:
+				walk(y.X, d+1)
+			case *ssa.Extract:
+				walk(y.Tuple, d+1)
+			case *ssa.Phi:
+				for _, ed := range y.Edges {
+					walk(ed, d+1)
+				}
+			case *ssa.Convert:
+				walk(y.X, d+1)
+			}
+		}
+		walk(v, 0)
+		return found
+	}
+	for _, blk := range f.Blocks {
+		_, _, ifi := ifSuccs(blk)
+		if ifi == nil || !pow(ifi.Cond) {
+			continue
+		}
+		// a failing side (or, in a bool validator, a false side)
+		for _, s := range blk.Succs {
+			reach := reachableFrom(s, nil)
+			any, all := false, true
+			for _, ret := range returnsOf(f) {
+				if reach[ret.Block()] {
+					any = true
+					if !e.isFailureReturn(f, ret) {
+						all = false
+					}
+				}
+			}
+			if any && all {
+				return true
+			}
+		}
+	}
+	// a validator expressed as a returned comparison (func (r) within(lo, hi) bool)
+	for _, ret := range returnsOf(f) {
+		for _, rv := range ret.Results {
+			if b, ok := rv.Type().Underlying().(*types.Basic); ok && b.Kind() == types.Bool && depth > 0 {
+				if _, isConst := resolve(rv).(*ssa.Const); !isConst {
+					return true
+				}
+			}
+		}
+	}
+	return false
 }
